@@ -12,7 +12,7 @@ INT_POOL = [0, 1, -1, 2, 3, -3, 5, 7, 10, -12, 100, 2147483647, -2147483648]
 NUM_POOL = [Fraction(0), Fraction(1), Fraction(-1), Fraction(5, 2), Fraction(-5, 2), Fraction(1, 8), Fraction(3, 2),
             Fraction(-29, 4), Fraction(1, 10), Fraction(333, 100), Fraction(1001, 1000), Fraction(12), Fraction(-1, 4),
             Fraction(9999, 10)]
-STR_POOL = ['', 'a', 'B', 'ab', ' aB ', 'x€', 'abcabc', 'Zz9', '  ', 'a b', 'ñ1', 'AbC', 'ba']
+STR_POOL = ['', 'a', 'B', 'ab', ' aB ', 'x€', 'abcabc', 'Zz9', '  ', 'a b', '日1', 'AbC', 'ba']   # non-ASCII only caseless (model's upper/lower are ASCII)
 BOOL_POOL = [True, False]
 ID_INT = [1, 2, 3, 4]
 ID_STR = ['a', 'b', 'c']
@@ -71,7 +71,8 @@ class Node:
 
 
 class Gen:
-    def __init__(self, rng, families=None, max_rows=8, null_rate=0.2, flat=False, allow=None):
+    def __init__(self, rng, families=None, max_rows=8, null_rate=0.2, flat=False, allow=None, nary_intersect=False):
+        self.nary_intersect = nary_intersect
         self.r = rng
         self.allow = set(allow) if allow else None
         self.flat = flat          # three-address form: one dataset-level operator per statement
@@ -428,7 +429,7 @@ class Gen:
             op = r.choice(['union', 'intersect', 'setdiff', 'symdiff'])
             a, b = (node, other) if r.random() < 0.5 else (other, node)
             operands = [a, b]
-            if op in ('union', 'intersect') and r.random() < 0.35:      # n-ary forms the grammar allows
+            if (op == 'union' or (op == 'intersect' and self.nary_intersect)) and r.random() < 0.35:      # n-ary forms the grammar allows
                 for _ in range(r.choice([1, 2])):
                     extra = self.leaf(env, like=node)
                     if extra is not None:
